@@ -44,7 +44,7 @@ BUDGET = {"quick": {"chains": 60, "abend": 40, "damage": 1500, "pool": 4},
           "thorough": {"chains": 1500, "abend": 600, "damage": 60000, "pool": 8}}
 QUICK_BASES = ["ext2_1k", "ext3_1k", "ext4_1k", "ext4_nocsum", "ext4_2k_i512", "ext4_noflex",
                "ext2_4k", "ext4_inline", "ext4_metabg"]
-KINDS = ["img", "mkfs", "img", "offmkfs", "img", "mkfs", "img", "offimg", "img", "mkfs"]
+KINDS = ["img", "mkfs", "img", "offmkfs", "img", "mkfs", "img", "offimg", "img", "mkfs", "tailmkfs"]
 ABKINDS = ["img", "img", "mkfs", "img", "undo", "img", "offimg", "mkfs"]
 NORMAL_RC = {"mke2fs": (0,), "tune2fs": (0,), "resize2fs": (0,), "debugfs": (0,),
              "e2fsck": (0, 1, 2, 3), "e2undo": (0,)}
@@ -391,6 +391,32 @@ def gen_chain(seed, idx, bases, phase="chain"):
         allow = ALL_TOOLS if kind == "mkfs" else ["tune2fs", "debugfs", "e2fsck"]
         while len(steps) < nsteps:
             steps.append(g_step(rng, m, st, len(steps), allow))
+    elif kind == "tailmkfs":
+        # a device whose length is not a multiple of mke2fs's 32 KiB undo block: the first run
+        # wipes the end of the device (a short last undo record); later runs of the chain write
+        # into that tail again
+        size = rng.choice([2, 4, 8, 16]) * (1 << 20) + rng.choice([5120, 20480, 1024, 31744, 12288])
+        ch["dev_size"] = size
+        st["dev_len"] = size
+        first, m = g_mke2fs(rng, size, 0, 0, 0)
+        first["blocks"] = None                    # the filesystem covers the whole device
+        m["kb"] = (size // m["bs"]) * m["bs"] // 1024
+        steps.append(first)
+        for n in range(rng.choice([1, 1, 2])):
+            r = rng.random()
+            if r < 0.4:
+                again, m = g_mke2fs(rng, size, 0, len(steps), 0)
+                again["blocks"] = None
+                m["kb"] = (size // m["bs"]) * m["bs"] // 1024
+                steps.append(again)
+            else:
+                nblk = size // m["bs"]
+                last = nblk - 1
+                lines = ["zap_block -p 0x%02x %d" % (rng.randrange(1, 255), b)
+                         for b in sorted(set([last, max(1, last - rng.randrange(0, 6))]))]
+                steps.append({"tool": "debugfs", "op": "scatter", "script": lines, "host": {}})
+            if rng.random() < 0.4:
+                steps.append(g_step(rng, m, st, len(steps), ["tune2fs", "debugfs", "e2fsck"]))
     elif kind == "mini":
         # small 1k-block filesystem made by an unrecorded mke2fs; undo blocks are then 1 KiB
         size = rng.choice([1536, 2048, 3072]) * 1024
